@@ -26,9 +26,16 @@ sh("git reset -q --hard && git clean -fdq", W)
 head = sh("git -C /repo rev-parse HEAD")[1].strip()
 sh("git checkout -q --detach %s" % head, W)          # the worktree follows /repo's HEAD
 demo_name = "demo_%s_%s" % (pid, X.lower())
+feat = ""
+try:
+    _m = re.search(r'--features[ =]+("[^"]*"|\S+)', json.load(open(os.path.join(src, "meta.json"))).get("demo_cmd", ""))
+    if _m:
+        feat = " --features " + _m.group(1)
+except Exception:
+    pass
 os.makedirs(os.path.join(W, "tests"), exist_ok=True)
 shutil.copy(os.path.join(src, "demo.rs"), os.path.join(W, "tests", demo_name + ".rs"))
-rc0, out0 = sh("cargo test --offline --test %s 2>&1 | tail -5" % demo_name, W)
+rc0, out0 = sh("cargo test --offline%s --test %s 2>&1 | tail -5" % (feat, demo_name), W)
 res["demo_passes_without_change"] = (rc0 == 0 and "test result: ok" in out0)
 rc, out = sh("git apply %s/patch.diff" % src, W)
 if rc != 0:
@@ -37,7 +44,7 @@ if rc != 0:
         sh("git reset -q --hard", W)
 res["patch_applies"] = rc == 0
 rebased = sh("git diff", W)[1]
-rc1, out1 = sh("cargo test --offline --test %s 2>&1 | tail -15" % demo_name, W)
+rc1, out1 = sh("cargo test --offline%s --test %s 2>&1 | tail -15" % (feat, demo_name), W)
 res["demo_fails_with_change"] = "test result: FAILED" in out1 or "panicked" in out1
 os.remove(os.path.join(W, "tests", demo_name + ".rs"))
 ok, lines = suite()
